@@ -127,6 +127,8 @@ class Prop:
             A = np.array([[rng.randint(-2, 2) for _ in range(3)] for _ in range(m)], dtype=np.float64)
             B = np.array([[rng.randint(-2, 2) for _ in range(n)] for _ in range(3)], dtype=np.float64)
             M = A @ np.diag([1.0, 1e-5, 1e-10]) @ B
+        elif cls == "scaled":     # overall magnitude far from 1: the factorisation is scale invariant
+            M = np.array([[rng.randint(-3, 3) for _ in range(n)] for _ in range(m)], dtype=np.float64) * rng.choice([1e-15, 1e-20, 1e12])
         elif cls == "ties":
             M = np.zeros((m, n))
             p = list(range(n)); rng.shuffle(p)
@@ -171,7 +173,7 @@ class Prop:
                             cases.append({"op": op, "x": x.tolist(), "ranks": r, "alg": alg,
                                           "tags": dict(op=op, cls=cls, N=N, alg=alg, ranks="int", size1=1 in x.shape, grid=True)})
         # ---- truncated SVD
-        mcls = ["generic", "generic", "rankdef", "decay", "faint", "ties", "zero", "one"]
+        mcls = ["generic", "generic", "rankdef", "decay", "faint", "scaled", "ties", "zero", "one"]
         for _ in range(900 if quick else 9000):
             cls = rng.choice(mcls)
             M = self._matrix(rng, cls)
@@ -263,7 +265,7 @@ class Prop:
             nm = float(np.sqrt(np.sum(M ** 2)))
             delta = 0.0 if case["mode"] == "none" else (case["val"] if case["mode"] == "delta" else case["val"] * nm)
             lo, hi = spec_rank_band(s, delta, case["rmax"])
-            return {"ok": True, "s": s.tolist(), "delta": delta, "rank_lo": lo, "rank_hi": hi, "zero": bool(s[0] < 1e-13) if len(s) else True}
+            return {"ok": True, "s": s.tolist(), "delta": delta, "rank_lo": lo, "rank_hi": hi, "zero": bool(s[0] == 0) if len(s) else True}
         x = np.array(case["x"], dtype=np.float64)
         N = x.ndim
         out = {"ok": True, "shape": list(x.shape), "normsq": fro2(x)}
@@ -408,9 +410,9 @@ class Prop:
         D = 2 ** 40
         ql = lambda x: "(%d#%d)" % (round(float(x) * D), D)
         qx = lambda x: qlit(Fraction(float(x)))          # exact value of the double (rank decisions see s exactly)
-        a2 = lambda A: "(mkA2 %d %d %s)" % (A.shape[0], A.shape[1], coq_list(A.reshape(-1).tolist(), ql, "Q"))
+        a2 = lambda A: "(mkA2 %d %d %s)" % (A.shape[0], A.shape[1], coq_list(A.reshape(-1).tolist(), qx, "Q"))
         rmax = case["rmax"] if case["rmax"] is not None else 1000
-        d2q = Fraction(d2).limit_denominator(10 ** 18)
+        d2q = Fraction(d2)            # exact value of the double
         return "mkCase %s %s %d%%nat %s (mkSvd %s %s %s) %s %s" % (
             a2(M), qlit(d2q), min(int(rmax), 1000), "true" if case["left_ortho"] else "false",
             a2(Us), coq_list(ss.tolist(), qx, "Q"), a2(Vhs), a2(U.detach()), a2(V.detach()))
